@@ -47,7 +47,7 @@ class NPX:
         a = np.asarray(a, dtype=object)
         out = np.empty(a.shape, dtype=object)
         for idx in np.ndindex(a.shape):
-            out[idx] = C.rsqrt(a[idx])
+            out[idx] = a[idx].sym_sqrt() if hasattr(a[idx], 'sym_sqrt') else C.rsqrt(a[idx])
         return out
 
     def savetxt(self, fname, X, fmt=None, delimiter=' ', newline='\n', header='', footer='', comments='# ', encoding=None):
@@ -301,6 +301,77 @@ def job_refusal(j, seed):
     return {'obligations': obs, 'candidates': cands, 'paths': len(paths)}
 
 
+def job_bits(j, seed):
+    """Bit-for-bit (QF_FP, Float64): the coordinate and value columns handed to the text layer carry the IEEE bit pattern
+    of the input (signed zeros included) for every non-NaN double; the uncertainty column is sqrt(variance) correctly
+    rounded.  Any arithmetic applied to the table on the way (+0.0, *1.0, -0.0 ...) must be the identity on bits."""
+    n = j
+    import numpy as np
+    import z3
+    from symex import core as C
+    from symex.fp import FPV
+    from symsc.variable import Variable
+    from .symutil import fresh_run
+
+    sc, xye = _load()
+    fresh_run()
+    obs, cands = [], []
+    case = {'kind': 'bits', 'n': n}
+    da = XDA(sc, C, True, n)
+    for c in (da.ndim == 1, ~da.masks.b, da.ncoords == 1, da.has_dim, ~da.edges['DIM']):
+        C.CTX.assume(c)
+    xs = [FPV.var(f'x{i}') for i in range(n)]
+    ys = [FPV.var(f'y{i}') for i in range(n)]
+    vs = [FPV.var(f'v{i}') for i in range(n)]
+    for t in (*xs, *ys, *vs):
+        C.CTX.assume(C.B('z3', z3.Not(z3.fpIsNaN(t.e))))
+    for t in vs:
+        C.CTX.assume(C.B('z3', z3.Not(z3.fpIsNegative(t.e))))
+
+    def arr(vals):
+        a = np.empty((len(vals),), dtype=object)
+        for i, t in enumerate(vals):
+            a[i] = t
+        return a
+
+    da.values = arr(ys)
+    da.variances = arr(vs)
+    da.coords.vars['DIM'] = Variable(_arr=arr(xs), dims=('DIM',), unit=sc.Unit('us'), dtype=sc.DType.float64)
+    da.coords.vars['DIM']._aligned = True
+    C.CTX.fork_timeout_ms = 20000
+
+    def run():
+        _Calls.saved = None
+        xye.save_xye('FILE', da)
+        return _Calls.saved
+
+    paths = C.explore(run, max_paths=8)
+    for k, p in enumerate(paths):
+        if p.exc is not None or p.inconclusive:
+            obs.append({'name': f'bits[n={n}]:path{k}', 'status': 'inconclusive' if p.inconclusive else 'violated', 'detail': str(p.inconclusive or repr(p.exc))[:200], 't': 0})
+            if p.exc is not None:
+                cands.append(('C15:bits:raises', case, repr(p.exc)[:100]))
+            continue
+        saved = p.value
+        if saved is None or saved.shape != (n, 3) or not all(isinstance(saved[i, c_], FPV) for i in range(n) for c_ in range(3)):
+            obs.append({'name': f'bits[n={n}]:path{k}:table of doubles', 'status': 'inconclusive', 'detail': 'table entries are not IEEE terms', 't': 0})
+            continue
+        for i in range(n):
+            for cname, col, src in (('coordinate', 0, xs), ('value', 1, ys)):
+                ob = C.prove(f'bits[n={n}]:path{k}:row {i} {cname} has the bit pattern of the input (signed zeros kept)', saved[i, col].bits_equal(src[i]), pc=p.pc, timeout_ms=60000)
+                obs.append(ob_dict(ob))
+                if ob.status == 'violated':
+                    cands.append(('C15:bits', {**case, 'column': cname}, f'{cname} column is not passed through bit-for-bit'))
+            want = vs[i].sym_sqrt()
+            # the same z3 term (one correctly rounded square root of the input) needs no bit-blasting of fp.sqrt
+            goal = C.TRUE if z3.eq(saved[i, 2].e, want.e) else saved[i, 2].bits_equal(want)
+            ob = C.prove(f'bits[n={n}]:path{k}:row {i} uncertainty = sqrt(variance), correctly rounded', goal, pc=p.pc, timeout_ms=60000)
+            obs.append(ob_dict(ob))
+            if ob.status == 'violated':
+                cands.append(('C15:bits', {**case, 'column': 'uncertainty'}, 'uncertainty column is not sqrt(variance)'))
+    return {'obligations': obs, 'candidates': cands, 'paths': len(paths)}
+
+
 def job_roundtrip(j, seed):
     n = j
     from symex import core as C
@@ -359,6 +430,7 @@ def run(chk):
     jobs = [(hv, cg, n) for hv in (True, False) for cg in (None, 'DIM', 'other') for n in ((1, 2) if chk.tier == 'quick' else (1, 2, 3))]
     run_jobs(chk, job_refusal, jobs)
     run_jobs(chk, job_roundtrip, [1, 2, 3])
+    run_jobs(chk, job_bits, [1, 2])
     chk.bounds = {'configuration': 'ndim (symbolic integer), number of coordinates (symbolic, 0..3), masks / dimension-coordinate present / per-coordinate bin-edge and alignment flags (symbolic Booleans); variances present and coord argument (None, dimension-coordinate, another coordinate) enumerated',
                   'rows': '1..3 with symbolic values'}
     chk.stubs = ['numpy c_/sqrt/savetxt/loadtxt: text layer = identity on doubles given >= 17 significant digits (Matula); a single row is returned 1-d as numpy does',
@@ -450,6 +522,20 @@ def replay_real(case):
             if tab.shape != (n, 3) or not np.array_equal(tab[:, 0], xs[chosen]) or not np.array_equal(tab[:, 1], y):
                 bad.append(f'first column is not the {real[chosen]} coordinate (or values changed): {desc}')
         return {'reproduced': bool(bad), 'detail': '; '.join(bad[:3])}
+    if case.get('kind') == 'bits':
+        specials = np.array([-0.0, 0.0, 5e-324, -5e-324, 1.7976931348623157e308, -1.7976931348623157e308, 1.0, -1.5, 2.2250738585072014e-308, 1e-310])
+        for n in (1, 2, len(specials)):
+            xs_ = specials[:n][::-1].copy()
+            ys_ = specials[:n].copy()
+            da = sc.DataArray(sc.array(dims=['tof'], values=ys_, variances=np.abs(specials[:n]) , unit='counts'), coords={'tof': sc.array(dims=['tof'], values=xs_, unit='us')})
+            f = io.StringIO()
+            xye.save_xye(f, da)
+            f.seek(0)
+            out = xye.load_xye(f, dim='tof', unit='counts', coord_unit='us')
+            for nm, a, b in (('coordinate', out.coords['tof'].values, xs_), ('values', out.values, ys_)):
+                if not np.array_equal(a.view(np.int64), b.view(np.int64)):
+                    bad.append(f'n={n}: {nm} {a.tolist()} loaded for {b.tolist()} (bit patterns differ)')
+        return {'reproduced': bool(bad), 'detail': '; '.join(bad[:2])}
     for n in (1, 2, 5, 50):
         vals = np.concatenate([rng.normal(size=n) * 10.0 ** rng.integers(-300, 300, size=n)])[:n]
         var = np.abs(rng.normal(size=n)) * 10.0 ** rng.integers(-200, 200, size=n)
